@@ -7,30 +7,47 @@ ID = 'C19'
 COQ_TARGETS = ['Props/Properties_C19.vo']
 PROPS_FILES = ['Props/Properties_C19.v']
 SHRINK_FROM = 2
-THEOREMS = ['C19_tx', 'C19_tx_exact', 'C19_rx_content', 'C19_rx_fail', 'C19_rx_readbin']
+THEOREMS = ['C19_tx', 'C19_tx_exact', 'C19_tx_checker', 'C19_tx_unrepaired_refuted', 'C19_rx_content', 'C19_rx_fail', 'C19_rx_readbin']
 ENGINES = [dict(name='bdat', c_sources=['bdat_h.c', 'bdat_rx.c', 'bdat_net.c'], extract='Extract/Extract_bdat.v', driver='bdat_driver.ml',
                 accepts=lambda c: c.startswith('aa ') or c.startswith('bb '))]
-RULE = ('tx cases = (chunk size, message[, number of positive intermediate replies]) for the real send_bdat: every message of <= 4 '
-        '(thorough: <= 8) octets over {a, CR, LF} x chunk sizes 16..20 (thorough 16..27); random messages of 0..400 octets made of '
-        'lines with CRLF / bare LF / bare CR / empty lines / CR runs, chunk sizes 16..64, 98..102, 998..1002, 1024, 9999..10001, 32768; '
-        'messages cut so that a chunk boundary falls on / before / after a CR or LF; non-trivial = at least two BDAT commands were sent; '
+RULE = ('tx cases = (chunk size, message[, number of positive intermediate replies]) for the real send_bdat: every message of <= 5 '
+        '(thorough: <= 8) octets over {a, CR, LF} x chunk sizes 16..21 (thorough 16..27); random messages of 0..400 (3000 for big chunk '
+        'sizes) octets made of lines with CRLF / bare LF / bare CR / empty lines / CR runs, chunk sizes 16..64, 98..102, 998..1002, 1024, '
+        '9999..10001, 32768; a third with CR / LF / CRLF placed where the first chunk fills up, half of those ending there. '
+        'rx cases = (faults, BDAT commands (size, LAST, pre-buffered octets), stream, read() sizes) for the real smtp_bdat on the real '
+        'net_readbin with a 1024-octet buffer: every stream of <= 4 (thorough <= 6) octets over {a, CR, LF} x every split into two chunks, '
+        'LAST on the second or on an empty third; random streams of 0..3500 octets (lines / dense CR-LF / plain), lengths around 1023 and '
+        '2046, CR / CRLF planted at the buffer boundaries, 0-6 random chunk cuts or a cut next to a CR, LAST on the final / on an extra empty '
+        'command / in the middle / absent, 0-2000 octets pre-buffered, read() results of 1..255 octets, and in a quarter of the cases one '
+        'fault: queue_init fails, n-th queue write fails, n-th read fails, size limit, peer hangs up, extra pipelined octets. '
+        'non-trivial: tx = at least two BDAT commands were sent; rx = at least two commands succeeded and the envelope was sent; '
         'distinct by case text')
 TRUSTED_BASE = [
-    'Coq 8.16.1 kernel (coqc; coqchk in thorough); vm_compute in the non-vacuity / refutation examples only; no native_compute',
-    'axioms: none (Print Assumptions: Closed under the global context)',
-    'translator tools/translators/bdat.py: regexes over qremote/qrbdat.c and lib/fmt.c produce the constants in coq/Gen/GenBdat.v '
-    '(reserve 12, margins, "BDAT ", " LAST\\r\\n", the LF-skip bound) and check the statement shapes the model transcribes',
-    'hand-written model coq/Model/BdatTx.v tied to send_bdat by the correspondence run (differential testing of every netnwrite call, '
-    'end state and warning count; bounded by the generator)',
+    'Coq 8.16.1 kernel (coqc; coqchk in thorough); vm_compute in the non-vacuity / refutation examples and two digit-count facts (ndigits 99, 159); no native_compute',
+    'axioms: none (Print Assumptions: Closed under the global context for all seven theorems)',
+    'translator tools/translators/bdat.py: regexes over qremote/qrbdat.c, lib/fmt.c, qsmtpd/data.c, lib/netio.c produce the constants in '
+    'coq/Gen/GenBdat.v and GenBdatRx.v (reserve 12, margins, "BDAT ", " LAST\\r\\n", the LF-skip bound, buffer sizes) and check the statement '
+    'shapes the models transcribe (a restructured function is reported as a broken tie)',
+    'hand-written models coq/Model/BdatTx.v and BdatRx.v tied to the C by the correspondence run (differential testing of every netnwrite '
+    'call / every queue write with its boundaries, replies, return codes, final lastcr/bdaterr/comstate; bounded by the generator)',
     'extraction with ExtrOcamlBasic only (no Extract Constant); ocaml/glue.ml + ocaml/bdat_driver.ml hex parsing/printing',
-    'C harness harness/bdat_h.c: #include of qremote/qrbdat.c and lib/fmt.c; netnwrite/checkreply/log_write/net_conn_shutdown stubbed; '
+    'C harness harness/bdat_h.c + bdat_rx.c + bdat_net.c: #include of qremote/qrbdat.c, lib/fmt.c, qsmtpd/data.c (-DCHUNKING, '
+    'INCOMING_CHUNK_SIZE=1), lib/netio.c; stubbed: netnwrite/checkreply/log_write/net_conn_shutdown (tx), queue_init/queue_envelope/'
+    'queue_result/queue_reset/freedata/tarpit and the dispatcher rule for comstate (rx); read()/write()/writev()/poll() redirected; '
     'malloc filled with 0xEE; msgdata placed against a PROT_NONE page; gcc 12 -O1 ASan+UBSan vs. production build',
+    'the boolean checker spec_ok_C19_rx (used only to look for a failing input on C outputs) is not proved equivalent to rx_delivered; '
+    'spec_ok_C19_tx is proved complete for tx_ok (C19_tx_checker), not sound',
 ]
 ASSUMPTIONS = [
-    'chunk size >= 16 (the minimum that fits "BDAT n LAST CRLF" plus one payload octet; smaller values of control/chunksizeremote make '
+    'tx: chunk size >= 16 (the minimum that fits "BDAT n LAST CRLF" plus one payload octet; smaller values of control/chunksizeremote make '
     'send_bdat loop forever or overflow its buffer - outside the property, noted in reports/C19.md)',
-    'malloc(chunksize) succeeds (otherwise send_bdat falls back to send_data, C06/C07)',
-    'netnwrite() transmits the buffer it is given unchanged; checkreply() returns the reply code of the server',
+    'tx: malloc(chunksize) succeeds (otherwise send_bdat falls back to send_data, C06/C07); netnwrite() transmits its buffer unchanged; '
+    'checkreply() returns the reply code of the server',
+    'rx: the "BDAT n [LAST]" argument has been parsed (n, LAST) - strtoull/strcasecmp are not modelled; BDAT commands of one transaction '
+    'follow each other (comstate 0x0800); between commands the line reader leaves any amount (0..1001) of the following octets buffered',
+    'rx: C19_rx_content assumes no fault: queue_init and write_received succeed, every write() on the queue descriptor is complete, no read '
+    'error, the peer sends all announced octets, the total is within maxbytes, net_writen succeeds; C19_rx_fail assumes nothing about faults',
+    'rx: read buffer sizeof(inbuf) >= 2 (INCOMING_CHUNK_SIZE >= 1 gives >= 1024); queue_envelope/queue_result are stand-ins that succeed',
 ]
 
 
@@ -66,12 +83,12 @@ CS_EDGE = [98, 99, 100, 101, 102, 998, 999, 1000, 1001, 1002, 1024, 9999, 10000,
 
 def gen_tx(rng, tier):
     out = []
-    maxl, cs_hi = (4, 20) if tier == 'quick' else (8, 27)
+    maxl, cs_hi = (5, 21) if tier == 'quick' else (8, 27)
     for l in range(0, maxl + 1):
         for m in itertools.product(b'a\r\n', repeat=l):
             for cs in range(16, cs_hi + 1):
                 out.append('aa %s %s' % (be(cs), R.hx(bytes(m))))
-    n = 1500 if tier == 'quick' else 40000
+    n = 4000 if tier == 'quick' else 40000
     for i in range(n):
         r = rng.random()
         if r < 0.75:
@@ -143,7 +160,7 @@ def gen_rx(rng, tier):
                 out.append('bb %s %s %s' % (_cfg(), _cmds([(c, 0, 0), (l - c, 1, 0)]), R.hx(m)))
                 if tier != 'quick' or rng.random() < 0.3:
                     out.append('bb %s %s %s' % (_cfg(), _cmds([(c, 0, 1), (l - c, 0, 0), (0, 1, 0)]), R.hx(m)))
-    n = 900 if tier == 'quick' else 25000
+    n = 3000 if tier == 'quick' else 25000
     for i in range(n):
         r = rng.random()
         if r < 0.55:
@@ -240,12 +257,18 @@ def distribution(results):
     return d
 
 
-LEVEL_TEXT = ('Machine-checked Coq theorem over an executable model of send_bdat (with the one-line repair fixes/C19-bdat-final-crlf.diff): '
-              'for every message and every chunk size >= 16 no buffer access is out of range, every netnwrite is "BDAT n[ LAST] CRLF" followed by '
-              'exactly n octets, command plus data never exceed the chunk size, LAST is on the final command only, and the concatenated chunk data '
-              'is the message with bare LF made CRLF (a bare CR may be completed to CRLF; exact for messages without bare CR). '
-              'Constants are regenerated from qremote/qrbdat.c on every run; the model is tied to the C by a differential run under ASan.')
-LEVEL_NOTE = ('Trusted: Coq kernel, translator regexes, extraction (ExtrOcamlBasic), harness, generator quality of the correspondence run. '
-              'Assumed: chunk size >= 16, malloc succeeds, netnwrite transmits its buffer unchanged.')
-TECHNIQUE = 'Coq proof by loop invariants on (off,len,cpoff,linel) and induction over chunks; translator-regenerated constants; model-vs-C differential run'
+LEVEL_TEXT = ('Machine-checked Coq theorems over executable models of send_bdat (with fixes/C19-bdat-final-crlf.diff) and of smtp_bdat + net_readbin '
+              '(with fixes/C19-bdat-rx-trailing-cr.diff). Sender: for every message and every chunk size >= 16 no buffer access is out of range, '
+              'every netnwrite is "BDAT n[ LAST] CRLF" followed by exactly n octets, command plus data never exceed the chunk size, LAST is on the '
+              'final command only, and the concatenated chunk data is the message with bare LF made CRLF (a bare CR may be completed to CRLF; '
+              'exact for messages without bare CR). Receiver: for every partition of the data into chunks, buffers (any buffer size >= 2), '
+              'pre-buffered octets and read() results, the octets written to the queue are the chunk data with CRLF -> LF, followed by one '
+              'envelope with the exact count; net_readbin returns exactly the next n octets; for every input and injected fault no access is '
+              'out of range and a failed command is never followed by an envelope. Constants are regenerated from the C on every run; the '
+              'models are tied to the C by a differential run under ASan.')
+LEVEL_NOTE = ('Trusted: Coq kernel, translator regexes, extraction (ExtrOcamlBasic), harness and its stand-ins, generator quality of the correspondence run. '
+              'Assumed: chunk size >= 16, malloc succeeds, netnwrite transmits its buffer unchanged; BDAT argument parsing, the command dispatcher and '
+              'the queue stand-ins are outside the model. Both theorems are about the code with the two proposed one-place repairs applied.')
+TECHNIQUE = ('Coq proofs by loop invariants (send_bdat: off/len/cpoff/linel; smtp_bdat: pos/rlen/cr over inbuf, lastcr across buffers and commands; '
+             'net_readbin: buffered + stream) and induction over chunks / commands; translator-regenerated constants; model-vs-C differential run')
 DESIGN_REF = 'DESIGN.md section 5, C19'
